@@ -9,9 +9,7 @@ Traces == JsonDeserialize(IOEnv.TRACE_FILE)
 VARIABLE i
 
 \* observed iteration multiset arrives as a sequence of <<value, count>>
-IterMatches(obs, f) ==
-  /\ {obs[n][1] : n \in 1..Len(obs)} = DOMAIN f
-  /\ \A n \in 1..Len(obs) : f[obs[n][1]] = obs[n][2]
+IterMatches(obs, f) == obs = f      \* both are ascending sequences of <<value, count>>
 
 Failed(t) ==
   LET r == ApplyTagOp(t.heap, 1, t.op) IN
